@@ -10,7 +10,7 @@ if os.path.exists(hf):
     hooks_commits = [l.split()[0] for l in open(hf) if l.strip() and not l.startswith("#")]
 checks, na = [], []
 for i in ids:
-    if i in PROPS:
+    if i in PROPS and all(k in PROPS[i] for k in ('harness', 'coq_files', 'level_text', 'level_note')):
         c = PROPS[i]
         checks.append({
             "property_id": i,
